@@ -72,6 +72,8 @@ type emitter struct {
 	pend Tok // pending flags for the next token
 	ctx  []int
 	nfun int
+	// subStmt: the next statement is the body of if/else/while/for, not an entry of a statement list
+	subStmt bool
 }
 
 func (e *emitter) tok(text string, kind TokKind, n *Node) {
@@ -267,7 +269,8 @@ func (e *emitter) body(n *Node) {
 
 func (e *emitter) stmt(n *Node) {
 	e.pend.StmtStart = true
-	e.pend.Boundary = true
+	e.pend.Boundary = !e.subStmt
+	e.subStmt = false
 	switch n.K {
 	case KLet:
 		e.kw("let", n)
@@ -366,6 +369,7 @@ func (e *emitter) stmt(n *Node) {
 // sub emits a statement in a single-statement position (body of if/else/while/for).
 // It is a statement start but not a statement-list gap.
 func (e *emitter) sub(n *Node) {
+	e.subStmt = true
 	e.stmt(n)
 }
 
@@ -650,6 +654,12 @@ func layout(in []Tok, eof Tok, r *rand.Rand, lay Layout) *Rendered {
 			}
 			if nlSeen {
 				write(indent())
+			} else {
+				sp := spaces()
+				if sp == "" && !isEOF && needSpace(prev, &t) {
+					sp = " "
+				}
+				write(sp)
 			}
 		} else if wantNL {
 			if chance(lay.Comment) && prev != nil {
